@@ -65,7 +65,10 @@ class RSI(Indicator):
             )
 
         if self.reading(f"{self.name}_data"):
-            rs = self.reading(f"{self.name}_data.gain") / self.reading(f"{self.name}_data.loss")
+            loss = self.reading(f"{self.name}_data.loss")
+            if loss == 0:
+                return 100.0
+            rs = self.reading(f"{self.name}_data.gain") / loss
             rsi = 100.0 - (100.0 / (1.0 + rs))
             return rsi
 
